@@ -23,7 +23,7 @@ ID = "C17"
 LEVEL = "fault_enumeration"
 RULE = (
     "(a) initial output file in {absent, empty, header only, header + row of s1, header + all rows, header + stale buffer with a claim} x session 1 (constructor + evaluate(s1) + evaluate(s3) where s3 has an empty prediction and therefore blank cells in its row, optionally ending with its atexit callbacks) killed "
-    "before operation k for every k (or not at all) x session 2 likewise x final complete session resubmitting all subjects (thorough: 3 subjects, 4 sessions); "
+    "before operation k for every k (or not at all) x session 2 likewise x final complete session resubmitting all subjects (thorough: 3 subjects; additionally THREE killed sessions in a row with every combination of crash points, 2 subjects); "
     "(b) BFS over histories of operations {new A, new B (sibling in the same directory), new C, restart A (new object on A's file without exit), X.evaluate(s1|s3), exit(X)} for three file-naming schemes (x/y, study.fold1/study.fold2, model/model.v1.0/model_2) up to depth 6 (thorough 8) with state = file system contents + live aggregators; "
     "(c) every sequential history of length <= 3 replayed on a real temporary directory and on the in-memory file system (identical final bytes). "
     "non-trivial = a history in which at least one session was killed after its first write, or two aggregators are alive; distinct by (initial state, crash points) / explored state"
@@ -176,6 +176,11 @@ def blocks(tier):
             n1 = 40 if tier == "quick" else 52
             for lo in range(0, n1, 4):
                 B.append(("crash", tier, init, subj, ex1, lo, lo + 4))
+    if tier == "thorough":
+        # three killed sessions in a row before the final one (two subjects, every combination of crash points)
+        for init in INITS:
+            for k1 in range(0, 36):
+                B.append(("crash3", init, k1))
     for scheme in SCHEMES:
         B.append(("hist", tier, scheme))
     B.append(("envconf",))
@@ -190,6 +195,8 @@ def run_block(block, acc):
             if k1 > n1:
                 continue
             run_case({"kind": "crash", "tier": tier, "init": init, "subjects": list(subj), "exit1": ex1, "k1": k1 if k1 < n1 else None}, acc)
+    elif block[0] == "crash3":
+        run_case({"kind": "crash3", "init": block[1], "k1": block[2], "subjects": ["s1", "s3"]}, acc)
     elif block[0] == "hist":
         run_case({"kind": "hist", "tier": block[1], "scheme": block[2]}, acc)
     else:
@@ -231,6 +238,8 @@ def run_case(case, acc):
         return _hist(case, acc)
     if kind == "envconf":
         return _envconf(case, acc)
+    if kind == "crash3":
+        return _crash3(case, acc)
     init, subjects, ex1, k1 = case["init"], case["subjects"], case["exit1"], case["k1"]
     # session 2 crash points depend on the state left by session 1: enumerate by running it once uncrashed
     k2s = [case["k2"]] if "k2" in case else None
@@ -487,3 +496,52 @@ def _envconf(case, acc):
                     raise RuntimeError(f"in-memory file system does not conform to the real one on init={init} history={hist}: vfs={res[0]} real={res[1]}")
     acc.count("envconf_histories", n)
     acc.ok()
+
+
+def _crash3(case, acc):
+    """three sessions killed one after the other (every combination of crash points), then the final complete session"""
+    init, subjects, k1 = case["init"], case["subjects"], case["k1"]
+    vfs.reset(initial_files(init, subjects), dirs=["/vfs/d"])
+    del LAST_ERROR[:]
+    n1 = session(subjects, None, False)
+    if k1 >= n1 or LAST_ERROR:
+        return
+    vfs.reset(initial_files(init, subjects), dirs=["/vfs/d"])
+    session(subjects, k1, False)
+    after1 = (dict(vfs.fs.files), sorted(vfs.fs.dirs))
+    n2 = session(subjects, None, False)
+    k2s = [case["k2"]] if "k2" in case else range(n2)
+    for k2 in k2s:
+        vfs.reset(after1[0], dirs=after1[1])
+        session(subjects, k2, False)
+        after2 = (dict(vfs.fs.files), sorted(vfs.fs.dirs))
+        n3 = session(subjects, None, False)
+        for k3 in ([case["k3"]] if "k3" in case else range(n3)):
+            acc.case("crash3", init, k1, k2, k3)
+            c2 = {**case, "k2": k2, "k3": k3}
+            tag = f"init={init} three sessions killed before ops {k1}, {k2}, {k3}; final session resubmits {subjects}"
+            vfs.reset(after2[0], dirs=after2[1])
+            acc.step(2)
+            del LAST_ERROR[:]
+            session(subjects, k3, False)
+            ref = reference(subjects)
+            before = agg.parse_tsv(vfs.fs.files.get(OUT, ""))
+            finished = {r[0] for r in before if r != ref["header"] and len(r) == len(ref["header"])}
+            CountingEvaluator.calls = []
+            session(list(reversed(subjects)) if (k1 + k2 + k3) % 2 else subjects, None, True)
+            if LAST_ERROR:
+                acc.violation(f"C17:session_raised:{type(LAST_ERROR[0]).__name__}:{init}", c2, f"{tag}: a session raised {LAST_ERROR[0]!r}")
+                continue
+            acc.state(vfs.fs.snapshot())
+            acc.nontriv("crash3", init, k1, k2, k3)
+            ok = judge_final(acc, c2, tag, subjects, finished)
+            nev = {s_: CountingEvaluator.calls.count(DATA[s_][0].tobytes() + DATA[s_][1].tobytes()) for s_ in subjects}
+            for s_ in subjects:
+                if s_ in finished and nev[s_] > 0:
+                    acc.violation("C17:finished_subject_reevaluated", c2, f"{tag}: subject {s_} already had a complete row but was evaluated again")
+                    ok = False
+                if s_ not in finished and nev[s_] != 1:
+                    acc.violation("C17:unfinished_subject_not_evaluated_once", c2, f"{tag}: subject {s_} had no complete row and was evaluated {nev[s_]} times in the final session")
+                    ok = False
+            if ok:
+                acc.ok()
